@@ -1208,7 +1208,7 @@ def run(ctx):
                        expected=["C13_live_tags_match", "C13_remove_tags_match", "C13_odf_skip_tags_match", "C13_ws_ascii_agrees",
                                  "C13_span_not_skipped"])
 
-    n = ctx.n(60, 600)
+    n = ctx.n(60, 450)
     B = {}
     def batch(name, fn, ty):
         B[name] = Batch(name, fn, ty)
